@@ -153,14 +153,15 @@ class Transport:
         if fault == "timeout":
             raise socket.timeout("injected: timed out")
         if fault in ("reset_on_read", "truncated"):
-            return FakeResponse(method, 200, body_b, rh, read_fault=fault)
-        if fault == "not_utf8":
-            return FakeResponse(method, 200, b"\xff\xfe{\x80", rh)
-        if fault == "not_json":
-            return FakeResponse(method, 200, b"<html>not json</html>", rh)
-        if fault == "empty_body":
-            return FakeResponse(method, 200, b"", rh)
-        resp = FakeResponse(method, net.get("code", 200), body_b, rh)
+            resp = FakeResponse(method, 200, body_b, rh, read_fault=fault)
+        elif fault == "not_utf8":
+            resp = FakeResponse(method, 200, b"\xff\xfe{\x80", rh)
+        elif fault == "not_json":
+            resp = FakeResponse(method, 200, b"<html>not json</html>", rh)
+        elif fault == "empty_body":
+            resp = FakeResponse(method, 200, b"", rh)
+        else:
+            resp = FakeResponse(method, net.get("code", 200), body_b, rh)
         resp.token = rec["seq"]
         return resp
 
